@@ -142,7 +142,15 @@ Fixpoint backoff_ok (expected : Z) (t : list revent) : bool :=
   | RSubscribe :: rest => backoff_ok 1%Z rest
   | _ :: rest => backoff_ok expected rest
   end.
-Definition redis_only (script : list outcome) : bool :=
+(* scripts whose only failures are RedisErrors and whose messages have the fields the client
+   library always provides ('channel', 'type') *)
+Definition redis_only (channel : str) (script : list outcome) : bool :=
+  forallb (fun o => match o with
+                    | LOther _ => false
+                    | LYield m => match keep channel m with Err _ => false | Ok _ => true end
+                    | _ => true
+                    end) script.
+Definition no_other (script : list outcome) : bool :=
   forallb (fun o => match o with LOther _ => false | _ => true end) script.
 Fixpoint ends_with_end (t : list revent) : bool :=
   match t with
